@@ -132,6 +132,97 @@ def _justify_pop(ctx, fn: FuncInfo, call: ast.Call) -> Optional[str]:
     return None
 
 
+def _identity_bookkeeping(ctx, fn: FuncInfo) -> bool:
+    """Every value derived from an id() call in `fn` stays identity bookkeeping: it is compared (`in`, `==`), put into / taken
+    out of local containers (also as one component of a tuple) and assigned to locals - and neither it nor a container
+    holding it is iterated, formatted, returned, yielded, stored in an object or passed to another function.  (The number an
+    object gets differs from run to run; whether two objects are the same one does not.)"""
+    prog = ctx.prog
+    T = 'T'
+    taint: Dict[str, object] = {}          # local name -> 'T' | ('tuple', positions) | ('C', positions or None)
+
+    def of(e):
+        if isinstance(e, ast.Call) and isinstance(e.func, ast.Name) and e.func.id == 'id' and prog.resolve_name(fn.module, 'id') is None:
+            return T
+        if isinstance(e, ast.Name):
+            return taint.get(e.id)
+        if isinstance(e, ast.Tuple):
+            pos = {i for i, x in enumerate(e.elts) if of(x) == T}
+            return ('tuple', frozenset(pos)) if pos else None
+        if isinstance(e, ast.Subscript) and isinstance(e.value, ast.Name) and isinstance(taint.get(e.value.id), tuple) and \
+                taint[e.value.id][0] == 'C':
+            p = taint[e.value.id][1]
+            return T if p is None else ('tuple', p)
+        if isinstance(e, ast.Call) and isinstance(e.func, ast.Attribute) and e.func.attr == 'pop' and isinstance(e.func.value, ast.Name) and \
+                isinstance(taint.get(e.func.value.id), tuple) and taint[e.func.value.id][0] == 'C':
+            p = taint[e.func.value.id][1]
+            return T if p is None else ('tuple', p)
+        return None
+    nodes = list(iter_own_nodes(fn.node))
+    for _round in range(4):
+        before = dict(taint)
+        for n in nodes:
+            if isinstance(n, ast.Assign) and len(n.targets) == 1:
+                t, v = n.targets[0], of(n.value)
+                if isinstance(t, ast.Name) and v is not None:
+                    taint[t.id] = v
+                elif isinstance(t, (ast.Tuple, ast.List)) and isinstance(v, tuple) and v[0] == 'tuple':
+                    for i, x in enumerate(t.elts):
+                        if i in v[1] and isinstance(x, ast.Name):
+                            taint[x.id] = T
+            elif isinstance(n, ast.Call) and isinstance(n.func, ast.Attribute) and n.func.attr in ('add', 'append') and \
+                    isinstance(n.func.value, ast.Name) and len(n.args) == 1:
+                v = of(n.args[0])
+                if v == T:
+                    taint[n.func.value.id] = ('C', None)
+                elif isinstance(v, tuple) and v[0] == 'tuple':
+                    taint[n.func.value.id] = ('C', v[1])
+        if taint == before:
+            break
+    if not any(isinstance(n, ast.Call) and of(n) == T for n in nodes):
+        return False
+
+    def tainted(e) -> bool:
+        return of(e) is not None
+    for n in nodes:
+        if not ((isinstance(n, ast.Name) and isinstance(n.ctx, ast.Load) and n.id in taint) or
+                (isinstance(n, ast.Call) and of(n) == T and isinstance(n.func, ast.Name))):
+            continue
+        par = prog.parent(n)
+        v = of(n)
+        if isinstance(par, ast.Compare):
+            continue
+        if isinstance(par, ast.Tuple) and isinstance(par.ctx, ast.Load):
+            gp = prog.parent(par)
+            if isinstance(gp, ast.Call) and isinstance(gp.func, ast.Attribute) and gp.func.attr in ('add', 'append') and par in gp.args:
+                continue
+            if isinstance(gp, ast.Assign) and gp.value is par:
+                continue
+            return False
+        if isinstance(par, ast.Call) and n in par.args and isinstance(par.func, ast.Attribute) and \
+                par.func.attr in ('add', 'append', 'discard', 'remove') and isinstance(par.func.value, ast.Name):
+            continue
+        if isinstance(par, ast.Assign) and par.value is n:
+            continue
+        if isinstance(v, tuple) and v[0] == 'C':
+            # the container itself: method calls that do not iterate, subscripts, truth tests, len()
+            if isinstance(par, ast.Attribute) and par.value is n and par.attr in ('add', 'append', 'discard', 'remove', 'pop', 'clear'):
+                continue
+            if isinstance(par, ast.Subscript) and par.value is n:
+                continue
+            if isinstance(par, (ast.While, ast.If, ast.IfExp)) and par.test is n:
+                continue
+            if isinstance(par, ast.UnaryOp) and isinstance(par.op, ast.Not):
+                continue
+            if isinstance(par, ast.Call) and isinstance(par.func, ast.Name) and par.func.id in ('len', 'bool'):
+                continue
+            return False
+        if isinstance(v, tuple) and v[0] == 'tuple' and isinstance(par, ast.Assign):
+            continue
+        return False
+    return True
+
+
 def _ambient(ctx, reach: List[FuncInfo]):
     run, prog, cg = ctx.run, ctx.prog, ctx.cg
     n_checked = 0
@@ -143,6 +234,11 @@ def _ambient(ctx, reach: List[FuncInfo]):
                 nm = n.func.id
                 if nm in FORBIDDEN_BUILTINS and prog.resolve_name(fn.module, nm) is None and nm not in env.vars \
                         and nm not in env._assign_sites:
+                    if nm == 'id' and _identity_bookkeeping(ctx, fn):
+                        run.holds('C08.ambient', fn.module.name, fn.qualname, n,
+                                  'id() is only used to recognise an object met before: the identities are stored in local containers, '
+                                  'compared and discarded - never iterated, formatted or handed on', node=n)
+                        continue
                     run.violation('C08.ambient', fn.module.name, fn.qualname, n,
                                   f'builtin {nm}() is process/seed dependent and is reachable from the generator',
                                   node=n)
